@@ -281,8 +281,9 @@ func TestOrchestrator(t *testing.T) {
 const tGroup = "TestGroup"
 
 type groupCase struct {
-	Members []Member `json:"members"` // State: unstarted (the group starts it) | running / finished (somebody else started it, on a context of its own, before the group reached it); When unused
-	Ending  string   `json:"ending"`  // cancel | close
+	Members []Member `json:"members"`          // State: unstarted (the group starts it) | running / finished (somebody else started it, on a context of its own, before the group reached it); When unused
+	Ending  string   `json:"ending"`           // cancel | close
+	EndAt   string   `json:"end_at,omitempty"` // "" : once every member is up | taken: the moment the group has read its last member (its start goroutines are still in flight)
 	Procs   int      `json:"gomaxprocs"`
 }
 
@@ -330,29 +331,55 @@ func runGroup(c *groupCase) (string, string) {
 			}
 		}
 	}
-	g := srv.Group(fun.SliceIterator(svcs))
+	// the group reads its members from an iterator of the harness, which
+	// therefore knows when the group has taken the last one (a member
+	// that was started elsewhere gives no other sign of having been
+	// reached)
+	var g *srv.Service
+	var stop int64
+	var taken atomic.Bool
+	end := func() {
+		stop = clock.Add(1)
+		if c.Ending == "close" {
+			g.Close()
+		} else {
+			cancel()
+		}
+	}
+	next := 0
+	g = srv.Group(fun.Producer[*srv.Service](func(context.Context) (*srv.Service, error) {
+		if next < len(svcs) {
+			next++
+			return svcs[next-1], nil
+		}
+		if !taken.Swap(true) && c.EndAt == "taken" {
+			// the group is told to end while the goroutines that
+			// start (and register) its members are still in flight
+			end()
+		}
+		return nil, io.EOF
+	}).Iterator())
 	if err := g.Start(ctx); err != nil {
 		return "start", fmt.Sprintf("Group.Start: %v", err)
 	}
-	// every member is started
-	if !vkit.Eventually(limit, func() bool {
-		for _, mm := range ms {
-			if mm.runs.Load() == 0 {
-				return false
+	if c.EndAt != "taken" {
+		// every member is taken and started
+		if !vkit.Eventually(limit, func() bool {
+			for _, mm := range ms {
+				if mm.runs.Load() == 0 {
+					return false
+				}
 			}
+			return taken.Load()
+		}) {
+			return "not-started", "the group did not start every member"
 		}
-		return true
-	}) {
-		return "not-started", "the group did not start every member"
-	}
-	// the blocking members stay up while the group's own context is live:
-	// nothing has told the group to end yet
-	time.Sleep(2 * time.Millisecond)
-	stop := clock.Add(1)
-	if c.Ending == "close" {
-		g.Close()
-	} else {
-		cancel()
+		// the blocking members stay up while the group's own context is live:
+		// nothing has told the group to end yet
+		time.Sleep(2 * time.Millisecond)
+		end()
+	} else if !vkit.Eventually(limit, taken.Load) {
+		return "not-started", "the group did not read its members"
 	}
 	var werr error
 	done := make(chan struct{})
@@ -405,7 +432,7 @@ func TestGroup(t *testing.T) {
 		if vkit.AlreadyFailed(tGroup) {
 			return
 		}
-		c := &groupCase{Ending: rapid.SampledFrom([]string{"cancel", "close"}).Draw(t, "ending"), Procs: rapid.SampledFrom([]int{1, 2, 4, 16}).Draw(t, "gomaxprocs")}
+		c := &groupCase{Ending: rapid.SampledFrom([]string{"cancel", "close"}).Draw(t, "ending"), EndAt: rapid.SampledFrom([]string{"", "", "taken"}).Draw(t, "endAt"), Procs: rapid.SampledFrom([]int{1, 2, 4, 16}).Draw(t, "gomaxprocs")}
 		n := rapid.IntRange(1, 6).Draw(t, "members")
 		nonOK := false
 		for i := 0; i < n; i++ {
@@ -422,7 +449,7 @@ func TestGroup(t *testing.T) {
 				vkit.Fail(t, tGroup, "C11:group/"+k, *c, "%s (repetition %d)", why, i)
 			}
 		}
-		vkit.CaseN(tGroup, vkit.Hash(*c), reps, n >= 2 && nonOK, []string{fmt.Sprintf("members:%d", n), "ending:" + c.Ending}, func() any { return *c })
+		vkit.CaseN(tGroup, vkit.Hash(*c), reps, n >= 2 && nonOK, []string{fmt.Sprintf("members:%d", n), "ending:" + c.Ending, "end-at:" + c.EndAt}, func() any { return *c })
 	})
 }
 
